@@ -35,8 +35,9 @@ func (s *Server) Rename(ctx context.Context, params *protocol.RenameParams) (*pr
 		return nil, nil
 	}
 
-	resolved := s.getWorkspaceResolved(params.TextDocument.URI)
-	currentPath := uriToPath(params.TextDocument.URI)
+	// the primary journal of the tree is the workspace's root journal, not necessarily the
+	// document the request comes from
+	resolved, currentPath := s.getWorkspaceResolvedWithPath(params.TextDocument.URI)
 
 	locations := findReferences(target, resolved, currentPath, journal, true)
 	if len(locations) == 0 {
